@@ -325,13 +325,45 @@ fn event_via<'a>(storage: &'a Storage, k: usize, path: u64) -> CapturedEvent<'a>
 
 /// Equality / ordering samples: all pairs in small storages, random pairs otherwise, every
 /// (parent, child) pair, and pairs across the storages of the case.
+/// `==` as observed; if `!=` contradicts it the observation is flipped so that the judge sees it.
+fn obs_eq<T: PartialEq>(x: &T, y: &T) -> bool {
+    let eq = x == y;
+    #[allow(clippy::nonminimal_bool)]
+    let ne = x != y;
+    if eq != ne { eq } else { !eq }
+}
+/// `partial_cmp` as observed; if the operators `<`, `<=`, `>`, `>=` contradict it, what the operators
+/// say is reported instead, so that the judge sees the inconsistency.
+fn obs_cmp<T: PartialOrd>(x: &T, y: &T) -> Option<std::cmp::Ordering> {
+    use std::cmp::Ordering::{Equal, Greater, Less};
+    let pc = x.partial_cmp(y);
+    let ops = (x < y, x <= y, x > y, x >= y);
+    let expected = match pc {
+        Some(Less) => (true, true, false, false),
+        Some(Equal) => (false, true, false, true),
+        Some(Greater) => (false, false, true, true),
+        None => (false, false, false, false),
+    };
+    if ops == expected {
+        pc
+    } else if ops.0 {
+        if pc == Some(Less) { Some(Greater) } else { Some(Less) }
+    } else if ops.2 {
+        if pc == Some(Greater) { Some(Less) } else { Some(Greater) }
+    } else if ops.1 || ops.3 {
+        if pc == Some(Equal) { None } else { Some(Equal) }
+    } else {
+        if pc.is_none() { Some(Equal) } else { None }
+    }
+}
+
 fn compare(storages: &[&Storage], r: &mut Rng) -> Vec<CmpObs> {
     let mut out = vec![];
     let sizes: Vec<(usize, usize)> = storages.iter().map(|s| (s.all_spans().len(), s.all_events().len())).collect();
     let mut span_pair = |sa: usize, a: usize, sb: usize, b: usize, r: &mut Rng| {
         let x = span_via(storages[sa], a, r.next());
         let y = span_via(storages[sb], b, r.next());
-        out.push(CmpObs { span: true, sa, a: a as u64, sb, b: b as u64, eq: x == y, cmp: x.partial_cmp(&y) });
+        out.push(CmpObs { span: true, sa, a: a as u64, sb, b: b as u64, eq: obs_eq(&x, &y), cmp: obs_cmp(&x, &y) });
     };
     for (k, &(n, _)) in sizes.iter().enumerate() {
         if n <= 5 {
@@ -377,7 +409,7 @@ fn compare(storages: &[&Storage], r: &mut Rng) -> Vec<CmpObs> {
     let mut event_pair = |sa: usize, a: usize, sb: usize, b: usize, r: &mut Rng| {
         let x = event_via(storages[sa], a, r.next());
         let y = event_via(storages[sb], b, r.next());
-        out.push(CmpObs { span: false, sa, a: a as u64, sb, b: b as u64, eq: x == y, cmp: x.partial_cmp(&y) });
+        out.push(CmpObs { span: false, sa, a: a as u64, sb, b: b as u64, eq: obs_eq(&x, &y), cmp: obs_cmp(&x, &y) });
     };
     for (k, &(_, m)) in sizes.iter().enumerate() {
         if m <= 4 {
